@@ -46,6 +46,15 @@ theorem gen_zoo_covers :
     RowsC01.DD.rows.length = 12 ∧ RowsC01.PDD.rows.length = 12 := by
   decide +kernel
 
+/-- the adjacency the rows are built from is `get_links_for_node`: every iteration over a node's usage records filters the record by its
+TYPE string against exactly {Pipe, Pump, Valve} (ast).  The zoo has water-quality sources named like a link that touches their node
+(`Popen`@J1, `Pback`@J2, `Ptank`@T1, `Pintank`@J4) and like the node (`J3`@J3), a pattern named like a link and a curve named like
+a node: `gen_rows_are_massBalance` shows none of them enters a balance row. -/
+theorem links_for_node_filters_by_type :
+    RowsC01.linksForNodeTypes = ["Pipe", "Pump", "Valve"] ∧ RowsC01.linksForNodeBranches = RowsC01.linksForNodeFilteredBranches ∧
+    3 ≤ RowsC01.linksForNodeBranches := by
+  decide
+
 /-! ### 2. `massBalance_row_shape`: what the row evaluates to, for every adjacency -/
 
 /-- the row built by `mass_balance_constraint.build` / `pdd_mass_balance_constraint.build` for ANY demand leaf, ANY lists
